@@ -249,7 +249,9 @@ def run_check(mod, tier: str, seed: int) -> int:
             print(f"HARNESS-ERROR property={mod.ID} job={i}: {json.dumps(r)[:3000]}")
             print(pool.logs()[-6000:])
             exit_code = EXIT_HARNESS
-        else:
+        if not agg.harness or pinned_viol or agg.violations:
+            # (a job that failed or timed out never becomes a pass - but violations found besides it are still
+            # confirmed and reported: a confirmed violation is the verdict)
             for l in kf_lines:
                 print(l)
             # 3. violations: confirm in a fresh fork, minimise, write + replay the file, report
@@ -317,7 +319,7 @@ def run_check(mod, tier: str, seed: int) -> int:
                 confirmed_violation = True
                 if exit_code == EXIT_OK:
                     exit_code = EXIT_VIOLATION
-            if confirmed_violation and exit_code == EXIT_HARNESS and not agg.harness:
+            if confirmed_violation and exit_code == EXIT_HARNESS:
                 # at least one violation class was confirmed and replays exactly: that is the verdict (exit 1); a
                 # further class that could not be reproduced exactly stays reported above as HARNESS-ERROR text
                 exit_code = EXIT_VIOLATION
